@@ -174,3 +174,8 @@ pub mod pq {
         }
     }
 }
+
+/// Façade over the mailbox queue (V1).
+pub mod queue {
+    pub use crate::channel::verif_queue::*;
+}
